@@ -1,0 +1,37 @@
+//go:build verif
+
+package value
+
+import "sort"
+
+// VerifMethod describes one entry of a method table (verification hook, read-only).
+type VerifMethod struct {
+	Name   string
+	Args   int // as stored: number of arguments including the receiver, -1 = variable
+	IsPure bool
+}
+
+// VerifMethodTables returns, per registered type id, the methods sorted by name.
+func (fg *FunctionGenerator) VerifMethodTables() map[Type][]VerifMethod {
+	res := map[Type][]VerifMethod{}
+	for id, mm := range fg.methods {
+		if mm == nil {
+			continue
+		}
+		var l []VerifMethod
+		for n, f := range mm {
+			l = append(l, VerifMethod{Name: n, Args: f.Args, IsPure: f.IsPure})
+		}
+		sort.Slice(l, func(i, j int) bool { return l[i].Name < l[j].Name })
+		res[Type(id)] = l
+	}
+	return res
+}
+
+// VerifTypeName returns the registered name of a type id.
+func (fg *FunctionGenerator) VerifTypeName(id Type) string {
+	if int(id) < len(fg.typeDescriptions) {
+		return fg.typeDescriptions[id].Name
+	}
+	return ""
+}
